@@ -12,7 +12,7 @@ theorem clock_monotone (s0 : SimS) (fuel : Nat) (h : Inv s0) :
     ((simulate s0 fuel).2.log.toList.filterMap clockOf).Pairwise (· ≤ ·) ∧
     (∀ c ∈ (simulate s0 fuel).2.log.toList.filterMap clockOf, c ≤ (simulate s0 fuel).2.now) ∧
     0 ≤ (simulate s0 fuel).2.now :=
-  (simulate_inv s0 fuel h).2
+  (simulate_inv s0 fuel h).2.1
 
 /-- A step backwards is refused: `__step` with a negative step size raises and leaves
 the clock where it was. -/
